@@ -158,6 +158,7 @@ func genC19Case(r *rand.Rand, idx int64) *c19Case {
 		return []string{base + "a"}
 	}
 	lastNames := make([][]string, len(c.Files))
+	lastContent := make([]string, len(c.Files)) // the most recent valid content of each file
 	verNo := make([]int, len(c.Files))
 	valid := func(f int, same bool) (string, string) {
 		verNo[f]++
@@ -169,9 +170,11 @@ func genC19Case(r *rand.Rand, idx int64) *c19Case {
 		}
 		lastNames[f] = nn
 		if opl {
-			return kind, c19OPL(nn, fmt.Sprintf("r%d", k))
+			lastContent[f] = c19OPL(nn, fmt.Sprintf("r%d", k))
+		} else {
+			lastContent[f] = c19Legacy(filepath.Ext(c.Files[f]), nn[0], k)
 		}
-		return kind, c19Legacy(filepath.Ext(c.Files[f]), nn[0], k)
+		return kind, lastContent[f]
 	}
 	for f := range c.Files {
 		_, content := valid(f, false)
@@ -185,8 +188,13 @@ func genC19Case(r *rand.Rand, idx int64) *c19Case {
 		k := r.IntN(10)
 		switch {
 		case removed[f]:
-			// removed-and-recreated
-			st.Kind, st.Content = valid(f, false)
+			// removed-and-recreated: with new content, or with exactly the bytes the
+			// file had when it was last valid (a restore from backup / git checkout)
+			if lastContent[f] != "" && r.IntN(2) == 0 {
+				st.Kind, st.Content = "valid", lastContent[f]
+			} else {
+				st.Kind, st.Content = valid(f, false)
+			}
 			removed[f] = false
 		case k < 4 || i == nSteps-1 && k < 7:
 			st.Kind, st.Content = valid(f, r.IntN(4) == 0 && opl)
